@@ -107,7 +107,12 @@ class RuntimeCheck:
                            "the universe of mocked traits in /verif/harness/src/universe.rs is representative of #[unimock] output for &self methods with one u8 argument (macro output itself is the subject of C05/C15/C16)"] + self.extra_assumptions()
         engine.lean_obligations(self.prop, self.theorems, rep, thorough=(tier == 'thorough'))
         self.explore(rep, tier, seed, replay)
+        if not replay:
+            self.extra(rep, tier, seed)
         return rep.finish()
+
+    def extra(self, rep, tier, seed):
+        pass
 
     def explore(self, rep, tier, seed, replay=None, merge=False):
         """run the runtime correspondence and add violations / coverage to `rep`"""
